@@ -23,12 +23,15 @@ pub enum Local {
     ActorStopped,
     /// (accepting side only) the accept callback declines
     Decline,
+    /// (initiating side only) the initiator vanishes in the middle of the session: its task is aborted and
+    /// its endpoint closed right after the acceptor allowed the request
+    Vanish,
     /// the store actor is shut down WHILE the session runs: the shutdown request is issued together
     /// with the session, so that requests of the session get queued behind it
     StopDuring,
 }
 fn local_n(l: Local) -> u8 {
-    match l { Local::Healthy => 0, Local::SyncDisabled => 1, Local::ReplicaClosed => 2, Local::ActorStopped => 3, Local::Decline => 4, Local::StopDuring => 5 }
+    match l { Local::Healthy => 0, Local::SyncDisabled => 1, Local::ReplicaClosed => 2, Local::ActorStopped => 3, Local::Decline => 4, Local::StopDuring => 5, Local::Vanish => 6 }
 }
 
 async fn side(ns: &NamespaceSecret, author: &iroh_docs::Author, keys: &[&[u8]], failure: Local) -> anyhow::Result<SyncHandle> {
@@ -41,7 +44,7 @@ async fn side(ns: &NamespaceSecret, author: &iroh_docs::Author, keys: &[&[u8]], 
         sync.insert_local(ns.id(), author.id(), bytes::Bytes::copy_from_slice(k), iroh_blobs::Hash::from_bytes(HASH_A), 1).await?;
     }
     match failure {
-        Local::Healthy | Local::Decline | Local::StopDuring => {}
+        Local::Healthy | Local::Decline | Local::StopDuring | Local::Vanish => {}
         Local::SyncDisabled => sync.set_sync(ns.id(), false).await?,
         Local::ReplicaClosed => { sync.close(ns.id()).await?; }
         Local::ActorStopped => { sync.shutdown().await?; }
@@ -52,7 +55,7 @@ async fn side(ns: &NamespaceSecret, author: &iroh_docs::Author, keys: &[&[u8]], 
 /// One case; returns the Coq term and the JSON description.
 pub async fn net_case(rng: &mut Rng, stats: &mut Stats) -> anyhow::Result<(String, String)> {
     let w = World::new(rng.next(), 1);
-    let fa = *rng.pick(&[Local::Healthy, Local::Healthy, Local::SyncDisabled, Local::ReplicaClosed, Local::ActorStopped, Local::StopDuring]);
+    let fa = *rng.pick(&[Local::Healthy, Local::Healthy, Local::SyncDisabled, Local::ReplicaClosed, Local::ActorStopped, Local::StopDuring, Local::Vanish, Local::Vanish]);
     let fb = *rng.pick(&[Local::Healthy, Local::Healthy, Local::Healthy, Local::SyncDisabled, Local::ReplicaClosed, Local::ActorStopped, Local::Decline, Local::StopDuring, Local::StopDuring]);
     let keys_a: Vec<&[u8]> = [&b"a"[..], b"b", b"c"][..rng.below(4) as usize].to_vec();
     let keys_b: Vec<&[u8]> = [&b"b"[..], b"d"][..rng.below(3) as usize].to_vec();
@@ -65,10 +68,16 @@ pub async fn net_case(rng: &mut Rng, stats: &mut Stats) -> anyhow::Result<(Strin
     let decline = fb == Local::Decline;
     let stop_b = fb == Local::StopDuring;
     let id_b = w.ns_id();
+    let allowed = std::sync::Arc::new(std::sync::atomic::AtomicBool::new(false));
+    let (allowed_tx, allowed_rx) = tokio::sync::oneshot::channel::<()>();
+    let allowed_tx = std::sync::Arc::new(std::sync::Mutex::new(Some(allowed_tx)));
     let accept_task = tokio::spawn({
         let bob_ep = bob_ep.clone();
         let bob = bob.clone();
+        let allowed = allowed.clone();
+        let allowed_tx = allowed_tx.clone();
         async move {
+            let note_allowed = move || { allowed.store(true, std::sync::atomic::Ordering::SeqCst); if let Some(tx) = allowed_tx.lock().unwrap().take() { let _ = tx.send(()); } };
             let incoming = bob_ep.accept().await?;
             let conn = incoming.await.ok()?;
             if stop_b {
@@ -77,11 +86,12 @@ pub async fn net_case(rng: &mut Rng, stats: &mut Stats) -> anyhow::Result<(Strin
                 let (b1, b2, b3) = (bob.clone(), bob.clone(), bob.clone());
                 let busy = async move { for _ in 0..8 { let _ = b1.get_state(id_b).await; } };
                 let stop = async move { tokio::task::yield_now().await; let _ = b2.shutdown().await; };
-                let sess = handle_connection(b3, conn, move |_ns, _peer| std::future::ready(AcceptOutcome::Allow), None);
+                let na = note_allowed.clone();
+                let sess = handle_connection(b3, conn, move |_ns, _peer| { na(); std::future::ready(AcceptOutcome::Allow) }, None);
                 let (_, _, r) = tokio::join!(busy, stop, sess);
                 return Some(r);
             }
-            Some(handle_connection(bob, conn, move |_ns, _peer| std::future::ready(if decline { AcceptOutcome::Reject(AbortReason::AlreadySyncing) } else { AcceptOutcome::Allow }), None).await)
+            Some(handle_connection(bob, conn, move |_ns, _peer| { if !decline { note_allowed(); } std::future::ready(if decline { AcceptOutcome::Reject(AbortReason::AlreadySyncing) } else { AcceptOutcome::Allow }) }, None).await)
         }
     });
     let id = w.ns_id();
@@ -92,6 +102,14 @@ pub async fn net_case(rng: &mut Rng, stats: &mut Stats) -> anyhow::Result<(Strin
             let stop = async move { tokio::task::yield_now().await; let _ = a2.shutdown().await; };
             let (_, _, c) = tokio::join!(busy, stop, connect_and_sync(&alice_ep, &alice, id, bob_addr, None));
             c
+        } else if fa == Local::Vanish {
+            // the session starts; as soon as the acceptor has allowed it the initiator is gone
+            let (ep2, a2) = (alice_ep.clone(), alice.clone());
+            let t = tokio::spawn(async move { connect_and_sync(&ep2, &a2, id, bob_addr, None).await });
+            let _ = tokio::time::timeout(Duration::from_secs(3), allowed_rx).await;
+            t.abort();
+            alice_ep.close().await;
+            Err(iroh_docs::net::ConnectError::Close { error: anyhow::anyhow!("the initiator vanished") })
         } else {
             connect_and_sync(&alice_ep, &alice, id, bob_addr, None).await
         };
@@ -101,12 +119,18 @@ pub async fn net_case(rng: &mut Rng, stats: &mut Stats) -> anyhow::Result<(Strin
     let res = tokio::time::timeout(Duration::from_secs(6), session).await;
     alice_ep.close().await;
     bob_ep.close().await;
+    // an error of the accepting side after it allowed the request: does it name the document?
+    let mut err_unnamed_after_allow = false;
     let (hung, a_ok, b_ok, a_cnt, b_cnt, b_panicked) = match res {
         Err(_) => (true, false, false, (0, 0), (0, 0), false),
         Ok((c, a)) => {
             let (a_ok, a_cnt) = match &c { Ok(f) => (true, (f.outcome.num_recv, f.outcome.num_sent)), Err(_) => (false, (0, 0)) };
             let (b_ok, b_cnt, b_p) = match &a {
                 Ok(Some(Ok(f))) => (true, (f.outcome.num_recv, f.outcome.num_sent), false),
+                Ok(Some(Err(e))) => {
+                    if allowed.load(std::sync::atomic::Ordering::SeqCst) && e.namespace().is_none() { err_unnamed_after_allow = true; }
+                    (false, (0, 0), false)
+                }
                 Ok(_) => (false, (0, 0), false),
                 Err(_) => (false, (0, 0), true),
             };
@@ -117,12 +141,12 @@ pub async fn net_case(rng: &mut Rng, stats: &mut Stats) -> anyhow::Result<(Strin
     stats.inc(&format!("net_alice_{:?}_bob_{:?}", fa, fb));
     if hung { stats.inc("net_hung"); }
     let coq = format!(
-        "(Net {} {} {} {} {} {} ({}, {}) ({}, {}))",
-        local_n(fa), local_n(fb), cbool(hung), cbool(b_panicked), cbool(a_ok), cbool(b_ok), a_cnt.0, a_cnt.1, b_cnt.0, b_cnt.1
+        "(Net {} {} {} {} {} {} ({}, {}) ({}, {}) {})",
+        local_n(fa), local_n(fb), cbool(hung), cbool(b_panicked), cbool(a_ok), cbool(b_ok), a_cnt.0, a_cnt.1, b_cnt.0, b_cnt.1, cbool(err_unnamed_after_allow)
     );
     let json = format!(
-        "{{\"net_session\":true,\"initiator\":\"{:?}\",\"acceptor\":\"{:?}\",\"initiator_entries\":{},\"acceptor_entries\":{},\"hung\":{},\"acceptor_panicked\":{},\"initiator_ok\":{},\"acceptor_ok\":{},\"initiator_recv_sent\":[{},{}],\"acceptor_recv_sent\":[{},{}]}}",
-        fa, fb, keys_a.len(), keys_b.len(), hung, b_panicked, a_ok, b_ok, a_cnt.0, a_cnt.1, b_cnt.0, b_cnt.1
+        "{{\"net_session\":true,\"initiator\":\"{:?}\",\"acceptor\":\"{:?}\",\"initiator_entries\":{},\"acceptor_entries\":{},\"hung\":{},\"acceptor_panicked\":{},\"initiator_ok\":{},\"acceptor_ok\":{},\"initiator_recv_sent\":[{},{}],\"acceptor_recv_sent\":[{},{}],\"acceptor_error_after_allow_names_no_document\":{}}}",
+        fa, fb, keys_a.len(), keys_b.len(), hung, b_panicked, a_ok, b_ok, a_cnt.0, a_cnt.1, b_cnt.0, b_cnt.1, err_unnamed_after_allow
     );
     Ok((coq, json))
 }
